@@ -580,10 +580,10 @@ MUTANTS = [
          old="                nodes_list.update(self.predecessors(node))\n            ancestors_list.add(node)",
          new="                nodes_list.update(self.predecessors(node))\n                ancestors_list.update(self.predecessors(node))"),
     dict(kind="break", name="dconnected-negated", file=DAG, expect="C08.routing",
-         old="        if end in self.active_trail_nodes(start, observed)[start]:\n            return True\n        else:\n            return False",
-         new="        if end in self.active_trail_nodes(start, observed)[start]:\n            return False\n        else:\n            return True"),
+         old="        if (\n            end\n            in self.active_trail_nodes(start, observed, include_latents=True)[start]\n        ):\n            return True\n        else:\n            return False",
+         new="        if end in self.active_trail_nodes(start, observed, include_latents=True)[start]:\n            return False\n        else:\n            return True"),
     dict(kind="break", name="dconnected-drops-observed", file=DAG, expect="C08.routing",
-         old="self.active_trail_nodes(start, observed)[start]", new="self.active_trail_nodes(start)[start]"),
+         old="self.active_trail_nodes(start, observed, include_latents=True)[start]", new="self.active_trail_nodes(start, include_latents=True)[start]"),
     dict(kind="break", name="moralize-children", file=DAG, expect="C08.moral",
          old="itertools.combinations(self.get_parents(node), 2)", new="itertools.combinations(self.get_children(node), 2)"),
     dict(kind="break", name="blanket-no-coparents", file=DAG, expect="C08.moral",
@@ -598,8 +598,8 @@ MUTANTS = [
          old="            if node not in ancestors_list:\n                nodes_list.update(self.predecessors(node))\n            ancestors_list.add(node)",
          new="            if node not in ancestors_list:\n                ancestors_list.add(node)\n                for p in self.predecessors(node):\n                    nodes_list.add(p)"),
     dict(kind="twin", name="dconnected-direct-return", file=DAG,
-         old="        if end in self.active_trail_nodes(start, observed)[start]:\n            return True\n        else:\n            return False",
-         new="        return end in self.active_trail_nodes(start, observed)[start]"),
+         old="        if (\n            end\n            in self.active_trail_nodes(start, observed, include_latents=True)[start]\n        ):\n            return True\n        else:\n            return False",
+         new="        return end in self.active_trail_nodes(start, observed, include_latents=True)[start]"),
     dict(kind="twin", name="latents-else-swapped", file=DAG,
          old="            if include_latents:\n                active_trails[start] = active_nodes\n            else:\n                active_trails[start] = active_nodes - self.latents",
          new="            if not include_latents:\n                active_trails[start] = active_nodes - self.latents\n            else:\n                active_trails[start] = active_nodes"),
